@@ -36,6 +36,26 @@ STMT_HOSTS = [
     ("def_between", "def f():\n    a = 1\n    X\n    return a\n"),
     ("nested_class_method_loop", "class A:\n    class B:\n        def m(self):\n            for i in r:\n                X\n"),
     ("deep_if", "if a:\n    if b:\n        if c:\n            if d:\n                X\n"),
+    # statically dead positions (a converter that "optimises" them away must still refuse)
+    ("if_zero", "if 0:\n    X\n"),
+    ("if_false_else", "if False:\n    X\nelse:\n    pass\n"),
+    ("if_none", "if None:\n    X\n"),
+    ("if_empty_string", "if '':\n    X\n"),
+    ("elif_zero", "if c:\n    pass\nelif 0:\n    X\n"),
+    ("else_of_true", "if 1:\n    pass\nelse:\n    X\n"),
+    ("if_not_true", "if not 1:\n    X\n"),
+    ("if_debug", "if __debug__:\n    X\n"),
+    ("while_zero", "while 0:\n    X\n"),
+    ("while_false_else", "while False:\n    pass\nelse:\n    X\n"),
+    ("for_empty_tuple", "for i in ():\n    X\n"),
+    ("def_if_false", "def f():\n    if False:\n        X\n    return 1\n"),
+    ("class_if_zero", "class A:\n    if 0:\n        X\n"),
+    ("loop_if_zero", "for i in r:\n    if 0:\n        X\n"),
+    ("nested_in_dead_if", "if 0:\n    if c:\n        X\n"),
+    ("only_stmt_of_function", "def f():\n    X\n"),
+    ("after_docstring", "def f():\n    '''doc'''\n    X\n"),
+    ("last_of_class", "class A:\n    a = 1\n    X\n"),
+    ("class_in_function_if", "def f():\n    class A:\n        if c:\n            X\n"),
 ]
 EXPR_HOSTS = [
     ("dead_return_value", "def g():\n    return 1\n    return X\n"),
@@ -74,6 +94,11 @@ EXPR_HOSTS = [
     ("ann_value", "x: int = X\n"),
     ("nested_lambda_default", "g = lambda a=lambda: X: a\n"),
     ("method_default", "class A:\n    def m(self, p=X):\n        pass\n"),
+    ("dead_if_zero_value", "if 0:\n    x = X\n"),
+    ("dead_and_operand", "x = 0 and X\n"),
+    ("dead_or_operand", "x = 1 or X\n"),
+    ("dead_ifexp_branch", "x = a if 1 else X\n"),
+    ("dead_while_zero_test_body", "while 0:\n    x = X\n"),
 ]
 # expression hosts are wrapped into a function where the construct needs one (yield/await)
 STMT_CONSTRUCTS = [
